@@ -64,6 +64,7 @@ func runC05(c *core.Ctx) {
 	c.Rule("R10", "the token→owner index is immutable once published (shared with C13.R7)", 1)
 	c.Rule("R8", "no selection loop over tokens starts from the extreme value of the domain (shared with C14.R7)", 1)
 	c.Rule("R11", "the k-way token merge never drops a token: an ended sequence does not beat a live one holding the end marker's value (shared with C14.R3)", 1)
+	c.Rule("R12", "a subring is selected and assembled under one hold of the ring lock: token lists, shared index and topology stamp describe the same ring state", 3)
 	c.Rule("R6", "first-element reads of token lists are guarded by a non-emptiness check", 1)
 	pkg := c.Prog.Pkg("ring")
 	if pkg == nil {
@@ -203,6 +204,7 @@ func runC05(c *core.Ctx) {
 	c13ImmutableIndex(c, pkg, "R10")
 	c14ExtremumAs(c, pkg, "R8")
 	c14MergeMarkerAs(c, pkg, "R11")
+	c05Snapshot(c, pkg, "R12")
 }
 
 func isFreshBase(fn *an.Fn, base ast.Expr) bool {
@@ -679,4 +681,58 @@ func c05ConflictKey(c *core.Ctx, pkg *packages.Package) {
 		return true
 	})
 	c.Check(ok && len(keys_) >= 2, "R9", "func=conflictingTokensExist", fn.Pos(), fmt.Sprintf("the seen-set is indexed by the token value alone (keys %v): two holders of one token conflict whatever their zones", keys_), len(keys_))
+}
+
+// c05Snapshot: buildRingForTheShard copies the parent's token→instance index and topology stamp into the
+// subring next to token lists merged from the instances its caller selected. All of that must come from one
+// ring state, so every caller holds Ring.mtx (taken before, released only by defer) across the call, and
+// the builder takes no lock of its own (it would mean the caller had let go).
+func c05Snapshot(c *core.Ctx, pkg *packages.Package, R string) {
+	b := an.FindFunc(pkg, "Ring.buildRingForTheShard")
+	if b == nil {
+		c.Miss(R, "func=Ring.buildRingForTheShard", "not found")
+		return
+	}
+	c.Analysed(b.String())
+	locks := 0
+	for _, call := range b.Calls(true) {
+		if sel, ok := call.Expr.Fun.(*ast.SelectorExpr); ok && (sel.Sel.Name == "RLock" || sel.Sel.Name == "Lock") && strings.HasSuffix(call.In.Canon(sel.X), ".mtx") {
+			locks++
+		}
+	}
+	c.Check(locks == 0, R, "func=Ring.buildRingForTheShard:no-lock", b.Pos(), fmt.Sprintf("the builder acquires no ring lock itself (%d acquisitions): it runs inside its caller's hold", locks), 1)
+	n := 0
+	for _, f := range an.Funcs(pkg) {
+		for _, call := range f.CallsTo(true, "ring", "(*Ring).buildRingForTheShard") {
+			n++
+			in := call.In
+			g := in.Graph()
+			held, deferred, plain := false, 0, 0
+			in.InspectShallow(func(x ast.Node) bool {
+				switch y := x.(type) {
+				case *ast.DeferStmt:
+					if sel, ok := y.Call.Fun.(*ast.SelectorExpr); ok && (sel.Sel.Name == "RUnlock" || sel.Sel.Name == "Unlock") && in.Canon(sel.X) == "recv.mtx" {
+						deferred++
+					}
+					return false
+				case *ast.CallExpr:
+					if sel, ok := y.Fun.(*ast.SelectorExpr); ok && in.Canon(sel.X) == "recv.mtx" {
+						switch sel.Sel.Name {
+						case "RLock", "Lock":
+							if g.NodeBefore(y, call.Expr) {
+								held = true
+							}
+						case "RUnlock", "Unlock":
+							plain++
+						}
+					}
+				}
+				return true
+			})
+			c.Check(held && deferred == 1 && plain == 0, R, "caller="+an.FuncDisplay(f.Obj)+":one-hold", call.Expr.Pos(), fmt.Sprintf("Ring.mtx is taken before the subring is built (%v) and released only by defer (deferred %d, other releases %d)", held, deferred, plain), 1)
+		}
+	}
+	if n == 0 {
+		c.Undec(R, "callers", b.Pos(), "no caller of buildRingForTheShard found")
+	}
 }
